@@ -460,6 +460,8 @@ def ite(I, c, a, b, use_ctx=True):
 def try_concrete_iter(I, v):
     if isinstance(v, PList):
         return list(v.items)
+    if isinstance(v, (set, frozenset)):
+        return sorted(v, key=lambda x: (x is None, str(x)))     # iteration order of a set is unspecified: one fixed order
     if isinstance(v, (tuple, list)):
         return list(v)
     if isinstance(v, range):
@@ -847,6 +849,16 @@ def getattr_(I, base, attr, frame, lineno=None):
             return 0
     if isinstance(base, tuple) and attr == 'index':
         pass
+    if isinstance(base, (set, frozenset)):
+        def as_set(x):
+            it = try_concrete_iter(I, x)
+            if it is None:
+                raise Unsupported('set operation with a symbolic operand')
+            return set(it)
+        ops = {'intersection': lambda o: base & as_set(o), 'difference': lambda o: base - as_set(o), 'union': lambda o: base | as_set(o),
+               'issubset': lambda o: base <= as_set(o), 'add': lambda x: base.add(x)}
+        if attr in ops:
+            return bound('set.' + attr, ops[attr])
     if isinstance(base, Builtin) and base.name == 'str' and attr == 'encode':
         return bound('str.encode', lambda s_, *a: Opaque('bytes'))
     if isinstance(base, str) and attr == 'encode':
@@ -1805,7 +1817,27 @@ def b_round(I, x, nd=None):
     raise Unsupported("round")
 
 
+def b_set(I, x=()):
+    it = iterate(I, x)
+    for v in it:
+        if not (isinstance(v, (str, int, float, bool, tuple)) or v is None):
+            raise Unsupported('set of symbolic values')
+    return set(it)
+
+
+def b_filter(I, f, x):
+    out = []
+    for v in iterate(I, x):
+        t = I.call(f, [v])
+        if not isinstance(t, bool):
+            raise Unsupported('filter with a symbolic predicate')
+        if t:
+            out.append(v)
+    return PList(out)
+
+
 BUILTINS = {
+    'set': b_set, 'filter': b_filter,
     'len': b_len, 'isinstance': b_isinstance, 'max': b_max, 'min': b_min, 'abs': b_abs, 'float': b_float,
     'int': b_int, 'bool': b_bool, 'range': b_range, 'enumerate': b_enumerate, 'zip': b_zip, 'all': b_all,
     'any': b_any, 'sum': b_sum, 'tuple': b_tuple, 'list': b_list, 'hasattr': b_hasattr, 'print': b_print,
